@@ -1,3 +1,13 @@
+//! vh-services: C41 (service lifecycle under any interleaving) and C42 (seqlock under
+//! any thread schedule) on the real `fuel-core-services` crate.
+mod c41;
+mod c42;
+
 fn main() {
-    mcx::machinery_failure("not built yet");
+    let cli = mcx::Cli::parse();
+    match cli.property.as_str() {
+        "C41" => c41::main(&cli),
+        "C42" => c42::main(&cli),
+        other => mcx::machinery_failure(&format!("vh-services does not serve {other}")),
+    }
 }
